@@ -94,6 +94,29 @@ def scenarios(ctx):
                 if bi % (4 if q else 1) == 0:
                     out.append(Scn(name + ".byte", streams.recut(whole, "byte"), cfg, (), exp))
                     out.append(Scn(name + ".rand", streams.recut(whole, "rand", rnd), cfg, (), exp))
+    # a response that arrives while the request body is still in flight (Expect: 100-continue and plain early answers):
+    # request cut at every position after its head, the response offered in between, then the rest of the request
+    for bi, body in enumerate([b"0123456789" * 4, b"abc\r\nGET /smuggled HTTP/1.1\r\nHost: h\r\n\r\n", b"x"]):
+        for ename, ehdr in (("expect", b"Expect: 100-continue\r\n"), ("plain", b"")):
+            for sname, first in (("100_201", b"HTTP/1.1 100 Continue\r\n\r\n" + A(201, b"Created", body=b"")), ("417", A(417, b"Expectation Failed", body=b"no")),
+                                 ("401", A(401, b"Unauthorized", body=b"")), ("200", A(200, body=b"fine"))):
+                head = b"PUT /b HTTP/1.1\r\n" + H + ehdr + b"Content-Length: %d\r\n\r\n" % len(body)
+                qs = head + body + nxt_req
+                ss = first + nxt_res
+                exp = [(">", 0, body, len(body)), ("<", 1, b"ok", 2)]
+                cfg = {"wf": 1, "n": 2, "cls": "body", "dump": 0}
+                pts = list(range(len(head), len(head) + len(body) + 1))
+                if q and len(pts) > 12:
+                    pts = sorted(set(rnd.sample(pts, 10) + [len(head), len(head) + len(body)]))
+                for c in pts:
+                    for sc in (len(first), len(ss)):
+                        arr = [(">", qs[:c]), ("<", ss[:sc]), (">", qs[c:])] + ([("<", ss[sc:])] if sc < len(ss) else [])
+                        c2, e2 = cfg, exp
+                        if ename == "expect" and sname in ("417", "401") and c == len(head):
+                            # a client that announced Expect: 100-continue and is refused before it sent a body byte does not send
+                            # the body (the parser relies on that, htp_response.c Expect handling): not a well-formed continuation
+                            c2, e2 = dict(cfg, wf=0, cls="expect-refused-body-sent"), []
+                        out.append(Scn("early/b%d.%s.%s.c%d.s%d" % (bi, ename, sname, c, sc), arr, c2, (), e2))
     # accounting on arbitrary input (no expectations): corpus and mutants
     out += gens.corpus(ctx.seed, q, modes=("orig", "rand"), nrand=1 if q else 6, mutants=2 if q else 10)
     return out
